@@ -80,11 +80,11 @@ fn run_sequence_tsi(w: u8, tsi: u64, init_name: &str, init: Option<u128>, ops: &
     let r = util::guarded(|| {
         let mut viol: Vec<Violation> = vec![];
         let mut sender = match spec.sender() {
-            Ok(s) => s,
+            Ok(s) => util::LeakOnPanic::new(s),
             Err(_) => return (viol, 0, 0),
         };
         let mut m = Model { w, live: BTreeSet::new() };
-        let mut handles: Vec<Box<Toi>> = vec![];
+        let mut handles: util::LeakOnPanic<Vec<Box<Toi>>> = util::LeakOnPanic::new(vec![]);
         let mut objects: Vec<u128> = vec![]; // TOIs attached to live objects
         let mut n_alloc = 0u64;
         let mut n_pk = 0u64;
@@ -98,7 +98,7 @@ fn run_sequence_tsi(w: u8, tsi: u64, init_name: &str, init: Option<u128>, ops: &
                     n_alloc += 1;
                     if let Some(x) = m.check_new(v, "allocate_toi", init_name, &trace) {
                         viol.push(x);
-                        { std::mem::forget(std::mem::take(&mut handles)); return (viol, n_alloc, n_pk); }
+                        { std::mem::forget(std::mem::take(&mut *handles)); return (viol, n_alloc, n_pk); }
                     }
                     handles.push(h);
                 }
@@ -115,6 +115,18 @@ fn run_sequence_tsi(w: u8, tsi: u64, init_name: &str, init: Option<u128>, ops: &
                         trace.push(format!("drop newest handle {}", h.get()));
                         m.live.remove(&h.get());
                         drop(h);
+                    }
+                }
+                6 => {
+                    // an object that add_object REFUSES (its own No-Code OTI of one byte per block cannot number 70 000
+                    // blocks): whatever TOI was drawn for it is gone, nothing else may change
+                    let mut o = ObjSpec::new(vec![1u8; 70_000], &format!("file:///toi/refused{}", step));
+                    o.oti = Some(OtiSpec::new(Fec::NoCode, 1, 1, 0));
+                    o.md5 = false;
+                    let b = build_object(&o).unwrap();
+                    match sender.add_object(0, b.desc) {
+                        Ok(t) => trace.push(format!("add_object(oversized) unexpectedly accepted -> {}", t)),
+                        Err(_) => trace.push("add_object(oversized) refused".into()),
                     }
                 }
                 3 | 4 => {
@@ -136,14 +148,14 @@ fn run_sequence_tsi(w: u8, tsi: u64, init_name: &str, init: Option<u128>, ops: &
                                     if v != t {
                                         viol.push(Violation::new("toi_handle_mismatch", format!("add_object returned {} for an object carrying handle {}", t, v)).with("width", w as u64).with("initial", init_name)
                                             .witness(json!({"operations": trace})));
-                                        { std::mem::forget(std::mem::take(&mut handles)); return (viol, n_alloc, n_pk); }
+                                        { std::mem::forget(std::mem::take(&mut *handles)); return (viol, n_alloc, n_pk); }
                                     }
                                 }
                                 None => {
                                     n_alloc += 1;
                                     if let Some(x) = m.check_new(t, "add_object", init_name, &trace) {
                                         viol.push(x);
-                                        { std::mem::forget(std::mem::take(&mut handles)); return (viol, n_alloc, n_pk); }
+                                        { std::mem::forget(std::mem::take(&mut *handles)); return (viol, n_alloc, n_pk); }
                                     }
                                 }
                             }
@@ -174,7 +186,7 @@ fn run_sequence_tsi(w: u8, tsi: u64, init_name: &str, init: Option<u128>, ops: &
                         viol.push(Violation::new("toi_on_wire_differs", format!("objects were given TOIs {:?} but the packets carry TOIs {:?}", want, wire))
                             .with("width", w as u64).with("initial", init_name).with("wire_truncated", want.iter().any(|v| *v > maxv(112)))
                             .witness(json!({"operations": trace})));
-                        { std::mem::forget(std::mem::take(&mut handles)); return (viol, n_alloc, n_pk); }
+                        { std::mem::forget(std::mem::take(&mut *handles)); return (viol, n_alloc, n_pk); }
                     }
                     // FDT listing
                     let mut listed: BTreeSet<u128> = BTreeSet::new();
@@ -189,7 +201,7 @@ fn run_sequence_tsi(w: u8, tsi: u64, init_name: &str, init: Option<u128>, ops: &
                     if !want.is_subset(&listed) {
                         viol.push(Violation::new("toi_in_fdt_differs", format!("objects were given TOIs {:?} but the FDT lists {:?}", want, listed))
                             .with("width", w as u64).with("initial", init_name).witness(json!({"operations": trace})));
-                        { std::mem::forget(std::mem::take(&mut handles)); return (viol, n_alloc, n_pk); }
+                        { std::mem::forget(std::mem::take(&mut *handles)); return (viol, n_alloc, n_pk); }
                     }
                     if sender.nb_objects() == 0 {
                         for t in objects.drain(..) {
@@ -344,7 +356,7 @@ fn main() {
     let prop = Property {
         id: "C15",
         level: "exploration",
-        rule: "reference set model (Live) checked after every operation: (sequences) ALL operation sequences over {allocate, drop oldest handle, drop newest handle, add object with handle, add object implicitly, publish+drain until the objects are gone} up to depth d (6 quick, 8 thorough) for each TOI width 16..112 and initial values {1, 0, max-2, max-1, max, 2^w, u128::MAX, random default}; wire and FDT TOIs compared with the allocated values through the independent decoder; (inner_boundaries) allocation histories started 0-3 values before every inner 16-bit boundary 2^k < 2^w of the width, for five TSI values covering the TSI field classes, every allocated value attached, transmitted and compared on the wire and in the FDT; (wrap) 70 000 allocations across the 16-bit wrap with a sliding window of live handles and with all but a few values live, also while an object that was removed during its first transfer is still sending with its TOI; (threads) 2-8 real threads allocating through Arc<Mutex<Sender>> and dropping handles (moved between threads) without the lock, merged log ordered by a global sequence counter with call/return events; Send/Sync claims asserted at compile time; a case is one batch of sequences, non-trivial when allocations were observed; distinct = (width, initial, batch)",
+        rule: "reference set model (Live) checked after every operation: (sequences) ALL operation sequences over {allocate, drop oldest handle, drop newest handle, add object with handle, add object implicitly, publish+drain until the objects are gone} up to depth d (6 quick, 8 thorough) for each TOI width 16..112 and initial values {1, 0, max-2, max-1, max, 2^w, u128::MAX, random default}; wire and FDT TOIs compared with the allocated values through the independent decoder; (rejected_adds) all sequences of depth 5 over {allocate, add refused by add_object, implicit add, drop} from the last values of every width; (inner_boundaries) allocation histories started 0-3 values before every inner 16-bit boundary 2^k < 2^w of the width, for five TSI values covering the TSI field classes, every allocated value attached, transmitted and compared on the wire and in the FDT; (wrap) 70 000 allocations across the 16-bit wrap with a sliding window of live handles and with all but a few values live, also while an object that was removed during its first transfer is still sending with its TOI; (threads) 2-8 real threads allocating through Arc<Mutex<Sender>> and dropping handles (moved between threads) without the lock, merged log ordered by a global sequence counter with call/return events; Send/Sync claims asserted at compile time; a case is one batch of sequences, non-trivial when allocations were observed; distinct = (width, initial, batch)",
         assumptions: vec![
             "a handle drop is effective somewhere inside its call/return interval: reuse is only flagged when an allocation lies entirely inside the definitely-live interval of the same value".into(),
             "TOI 0 handles created internally for FDTs are not modelled".into(),
@@ -440,6 +452,42 @@ fn main() {
             limit(&mut cr.violations, 2);
             cr
         }));
+        // ---- histories with REFUSED add_object calls (error path) next to the wrap: all sequences of depth 5 over
+        // {allocate, refused add, implicit add, drop oldest handle} for every width from the last values of the TOI space
+        let ralpha: [u8; 4] = [0, 6, 4, 1];
+        let rinits: Vec<(&'static str, fn(u8) -> u128)> = vec![("max-2", |w| maxv(w) - 2), ("max-1", |w| maxv(w) - 1), ("max", |w| maxv(w)), ("1", |_| 1)];
+        let nri = rinits.len();
+        gens.push(Gen::new("rejected_adds", WIDTHS.len() * nri, move |_ctx, i| {
+            let w = WIDTHS[i / nri];
+            let (iname, f) = rinits[i % nri];
+            let init = f(w);
+            let mut cr = CaseResult::default();
+            let (mut na, mut np) = (0, 0);
+            for code in 0..4usize.pow(5) {
+                let mut ops = vec![];
+                let mut x = code;
+                for _ in 0..5 {
+                    ops.push(ralpha[x % 4]);
+                    x /= 4;
+                }
+                ops.push(5);
+                let (a, p) = run_sequence(w, iname, Some(init), &ops, &mut cr.violations);
+                na += a;
+                np += p;
+                if cr.violations.len() > 20 {
+                    break;
+                }
+            }
+            cr.count("allocations", na);
+            cr.count("packets_compared", np);
+            if na > 0 {
+                cr.shape = Some(util::fnv(&format!("rej|{}|{}", w, iname)));
+            }
+            cr.states = vec![util::fnv(&format!("rej|{}", w))];
+            cr.sample = Some(json!({"width": w, "initial": iname, "sequences": 1024, "allocations": na}));
+            limit(&mut cr.violations, 2);
+            cr
+        }));
         // ---- wrap-around with many live values
         gens.push(Gen::new("wrap_16bit", 18, move |ctx, i| {
             let mut cr = CaseResult::default();
@@ -449,9 +497,9 @@ fn main() {
             spec.toi_initial = Some(*rng.pick(&[1u128, 65000, 65535, 32768]));
             let window = [1usize, 10, 1000, 30000, 65000, 65530][i % 6];
             let r = util::guarded(|| {
-                let mut sender = spec.sender().unwrap();
+                let mut sender = util::LeakOnPanic::new(spec.sender().unwrap());
                 let mut m = Model { w: 16, live: BTreeSet::new() };
-                let mut q: std::collections::VecDeque<Box<Toi>> = Default::default();
+                let mut q: util::LeakOnPanic<std::collections::VecDeque<Box<Toi>>> = util::LeakOnPanic::new(Default::default());
                 let mut viol = vec![];
                 let n = if window > 60000 { 66_000 } else { 70_000 };
                 // cases 12-17: an object is added, its transfer begins, and remove_object is called while it is being sent
@@ -491,7 +539,7 @@ fn main() {
                         // two handles now carry the same value: releasing both is not something the allocator has to
                         // survive (a panic inside Drop while another handle unwinds aborts the process) - leak them
                         std::mem::forget(h);
-                        std::mem::forget(std::mem::take(&mut q));
+                        std::mem::forget(std::mem::take(&mut *q));
                         break;
                     }
                     q.push_back(h);
